@@ -732,11 +732,17 @@ func (g *SummaryGraph) addCallArgEdge(mark MarkWithAccessPath, cond *ConditionIn
 	}
 
 	for _, callNode := range callNodes {
-		callNodeArg := callNode.FindArg(arg)
-		if callNodeArg == nil {
+		// the same value may be passed at several argument positions, e.g. f(x, x)
+		found := false
+		for _, callNodeArg := range callNode.args {
+			if callNodeArg.ssaValue == arg {
+				found = true
+				g.addEdge(mark, callNodeArg, cond)
+			}
+		}
+		if !found {
 			panic("attempting to set call arg edge but no call arg node")
 		}
-		g.addEdge(mark, callNodeArg, cond)
 	}
 }
 
